@@ -275,3 +275,29 @@ Example C01_cluster_nonvacuous :
   map (fun nd => length (n_merged nd)) (c_nodes s) = [6%nat; 6%nat; 3%nat] /\
   map (fun nd => table (n_db nd)) (c_nodes s) = [[(1, Some 9); (2, Some 1)]; [(1, Some 9); (2, Some 1)]; [(1, Some 9); (2, Some 1)]].
 Proof. vm_compute. repeat split; reflexivity. Qed.
+
+(* PROGRESS, for every reachable state and without any hypothesis on the records: with no further
+   write, sessions with the versions' origins alone bring any node to know every acknowledged
+   version (the acknowledged log is untouched) *)
+Theorem C01_cluster_node_can_catch_up : forall n ops i nd,
+  nth_error (c_nodes (crun n ops)) i = Some nd ->
+  exists pulls, Forall is_pull pulls /\
+    let s' := fold_left cstep pulls (crun n ops) in
+    c_log s' = c_log (crun n ops) /\
+    exists nd', nth_error (c_nodes s') i = Some nd' /\ knows_all (c_log s') nd' = true.
+Proof. exact cluster_node_can_catch_up. Qed.
+Print Assumptions C01_cluster_node_can_catch_up.
+
+(* safety + progress together: once writes stop, every node of every reachable state can reach,
+   by sessions alone, a state in which it shows exactly the merge of all acknowledged records *)
+Theorem C01_cluster_every_node_can_converge : forall n ops i nd,
+  let U := all_recs (c_log (crun n ops)) in
+  wf U -> no_tie U = true -> clk_unique U = true ->
+  nth_error (c_nodes (crun n ops)) i = Some nd ->
+  exists pulls, Forall is_pull pulls /\
+    let s' := crun n (ops ++ pulls) in
+    c_log s' = c_log (crun n ops) /\
+    exists nd', nth_error (c_nodes s') i = Some nd' /\
+                table (n_db nd') = table (merge_all [] U) /\ versions (n_db nd') = versions (merge_all [] U).
+Proof. exact cluster_every_node_can_converge. Qed.
+Print Assumptions C01_cluster_every_node_can_converge.
